@@ -40,8 +40,14 @@ def lib_text(mod, rng=None, without=None):
     return '\n'.join(out)
 
 
+# a module with PRIVATE classes spelled like the candidates: it exports nothing, so no proposal may name it
+PRIVATE_LIB = 'Hidden.P'
+
+
 def lib_sources():
-    return {m: lib_text(m) for m in LIBS}
+    src = {m: lib_text(m) for m in LIBS}
+    src[PRIVATE_LIB] = ''.join('private class %s {\n  function make(): int = 99\n}\n' % c for c in sorted(CANDIDATES))
+    return src
 
 
 # ------------------------------------------------------------------ layout pieces
